@@ -126,6 +126,7 @@ type Contract struct {
 	Replay      string   // replay driver name
 	Safety      string   // "on" / "off" / ""
 	Pure        bool     // declared to have no heap effect at all (stronger than modifies nothing: also for loops' havoc)
+	Assumed     bool     // contract of a repository function that is used by callers but not (yet) verified
 	Fresh       []string // results that are freshly allocated objects when non-nil
 	WrapOK      bool     // integer arithmetic in this function wraps by design (hash-like code): no overflow obligations
 	FuncValue   bool     // contract of a function value (fnvalue): parameters only, no receiver
@@ -139,6 +140,7 @@ type Spec struct {
 	Ret    string
 	Body   Expr
 	Ghost  bool // mutable ghost state: heap indexed by the parameters
+	Pkg    string
 }
 
 type File struct {
@@ -151,7 +153,7 @@ type File struct {
 
 // ---------- line level parser
 
-var clauseKW = map[string]bool{"fresh": true, "exit": true, "props": true, "mode": true, "bytes": true, "requires": true, "ensures": true, "modifies": true,
+var clauseKW = map[string]bool{"assumed": true, "fresh": true, "exit": true, "props": true, "mode": true, "bytes": true, "requires": true, "ensures": true, "modifies": true,
 	"panics": true, "loop": true, "invariant": true, "decreases": true, "trusted": true, "wrap-ok": true,
 	"call": true, "aftercall": true, "implements": true, "replay": true, "safety": true, "pure": true, "conformance": true,
 	"assume": true, "show": true, "vars": true, "mustfail": true}
@@ -167,11 +169,33 @@ func ParseComments(pkg, file string, lines []string, lineNos []int) *File {
 	var pendLine int
 	var pendCA *CallAssert
 	flush := func() {
-		if pendKind == "" || (cur == nil && curLemma == nil && pendKind != "axiom") {
+		if pendKind == "" || (cur == nil && curLemma == nil && pendKind != "axiom" && pendKind != "spec" && pendKind != "ghost") {
 			pendKind, pendSrc, pendCA = "", nil, nil
 			return
 		}
 		src := strings.TrimSpace(strings.Join(pendSrc, " "))
+		if pendKind == "spec" || pendKind == "ghost" {
+			sp, err := parseSpec(src, pendKind == "ghost")
+			if err != nil {
+				f.Errors = append(f.Errors, fmt.Errorf("%s:%d: %v", file, pendLine, err))
+			} else {
+				sp.Pkg = pkg
+				f.Specs = append(f.Specs, sp)
+			}
+			pendKind, pendSrc, pendCA = "", nil, nil
+			return
+		}
+		if pendKind == "modifies" {
+			if cur != nil && src != "nothing" {
+				for _, m := range splitTop(src) {
+					if m = strings.TrimSpace(m); m != "" {
+						cur.Modifies = append(cur.Modifies, m)
+					}
+				}
+			}
+			pendKind, pendSrc, pendCA = "", nil, nil
+			return
+		}
 		label := ""
 		if strings.HasPrefix(src, "[") { // optional [label]
 			if i := strings.Index(src, "]"); i > 0 {
@@ -248,12 +272,7 @@ func ParseComments(pkg, file string, lines []string, lineNos []int) *File {
 			pendKind, pendSrc, pendLine = "axiom", []string{rest}, ln
 		case word == "spec" || word == "ghost":
 			flush()
-			sp, err := parseSpec(rest, word == "ghost")
-			if err != nil {
-				f.Errors = append(f.Errors, fmt.Errorf("%s:%d: %v", file, ln, err))
-			} else {
-				f.Specs = append(f.Specs, sp)
-			}
+			pendKind, pendSrc, pendLine = word, []string{rest}, ln
 		case curLemma != nil && clauseKW[word]:
 			flush()
 			switch word {
@@ -286,6 +305,9 @@ func ParseComments(pkg, file string, lines []string, lineNos []int) *File {
 				cur.Bytes = rest
 			case "trusted":
 				cur.Trusted = true
+			case "assumed":
+				cur.Trusted = true
+				cur.Assumed = true
 			case "pure":
 				cur.Pure = true
 				cur.HasMod = true
@@ -303,11 +325,7 @@ func ParseComments(pkg, file string, lines []string, lineNos []int) *File {
 				cur.Implements = append(cur.Implements, strings.Fields(rest)...)
 			case "modifies":
 				cur.HasMod = true
-				if rest != "nothing" {
-					for _, m := range splitTop(rest) {
-						cur.Modifies = append(cur.Modifies, strings.TrimSpace(m))
-					}
-				}
+				pendKind, pendSrc, pendLine = "modifies", []string{rest}, ln
 			case "loop":
 				n, err := strconv.Atoi(strings.TrimSuffix(strings.Fields(rest)[0], ":"))
 				if err != nil {
